@@ -53,4 +53,5 @@ class LocalToField:
             and holding_scope.get_kind() == "Function"
             and parent is not None
             and parent.get_kind() == "Class"
+            and holding_scope.pyobject.get_kind() != "staticmethod"
         )
